@@ -468,9 +468,32 @@ func genBool(r *vh.Rng, depth int) *node {
 	}
 }
 
+// genTinyImag: a complex constant whose NON-ZERO imaginary part rounds to zero in float32 and/or float64
+// (finding C04-9: float64(1 + 1e-400i) was accepted): x + <tiny>i, x - <tiny>i or complex(x, <tiny>)
+func genTinyImag(r *vh.Rng) *node {
+	var tiny *node
+	if r.Bool() {
+		e := []int{-46, -47, -60, -300, -324, -325, -400, -1200}[r.Intn(8)]
+		tiny = floatLit(r, big.NewInt(int64(1+r.Intn(99))), e, false)
+	} else {
+		e := []int{-150, -151, -152, -200, -1074, -1075, -1076, -1100}[r.Intn(8)]
+		tiny = floatLit(r, big.NewInt(int64(1+r.Intn(7))), e, true)
+	}
+	x := genNum(r, 1, KFloat)
+	switch r.Intn(3) {
+	case 0:
+		return call2("complex", x, tiny)
+	case 1:
+		return bin("-", x, imagLit(r, tiny))
+	}
+	return bin("+", x, imagLit(r, tiny))
+}
+
 // genAny: mostly well-kinded, sometimes deliberately ill-kinded (must be rejected by every party)
 func genAny(r *vh.Rng, depth int) *node {
 	switch x := r.Intn(40); {
+	case x < 1:
+		return genTinyImag(r)
 	case x < 24:
 		return genNum(r, depth, KInt+r.Intn(4))
 	case x < 30:
